@@ -469,3 +469,7 @@ impl Validate for Constraint {
         Ok(())
     }
 }
+
+#[cfg(librasn_compiler_verif)]
+#[allow(unused_imports)]
+pub(crate) use linking::verif_hook_utils;
